@@ -3,7 +3,7 @@ CONSTANTS
   PartIds = {"e", "z", "a", "m80", "az", "x81", "L55", "L56"}
   TupleIds = {}
   RawIds = {"a", "e"}
-  Types = {"hash", "phash", "rlp", "raw"}
+  Types = {"hash", "phash", "rlp", "raw", "tkey"}
   MaxBuilders = 3
   MaxArgs = 1
   MaxParts = 3
